@@ -44,6 +44,18 @@ fn run_line(line: &str) -> String {
             return "BADCASE".into();
         }
     }
+    if toks[0] == "PAIR" {
+        // several commands on one line, executed one after the other by this thread (state that survives between calls is shared)
+        let outs: Vec<String> = toks[1..].split(|t| *t == "||").map(run_tokens).collect();
+        return outs.join(" || ");
+    }
+    run_tokens(&toks)
+}
+
+fn run_tokens(toks: &[&str]) -> String {
+    if toks.is_empty() {
+        return "BADCASE".into();
+    }
     let args = &toks[1..];
     let r = panic::catch_unwind(|| match toks[0] {
         "HEX" => chan_hex::hex(args),
@@ -62,6 +74,7 @@ fn run_line(line: &str) -> String {
         "ID" => chan_id::id(args),
         "IDPAIR" => chan_id::idpair(args),
         "IDREF" => chan_id::idref(args),
+        "SRREF" => chan_id::srref(args),
         "FFI" => chan_ffi::ffi(args),
         "ADMENC" => chan_adm::admenc(args),
         "ADMSPEC" => chan_adm::admspec(args),
